@@ -2,6 +2,8 @@ package log
 
 import (
 	"context"
+	"sync"
+	"time"
 
 	"go.opentelemetry.io/otel/log"
 )
@@ -49,4 +51,81 @@ func HarnessC15LogNilSimple() {
 	vndAssert(sp.Shutdown(context.Background()) == nil, "nil-exporter-shutdown-harmless")
 	vndAssert(sp.Shutdown(context.Background()) == nil, "nil-exporter-second-shutdown-harmless")
 	vndReach("nil-simple")
+}
+
+// exporter model for the batch processor
+type c15LogExp struct {
+	mu        sync.Mutex
+	shutdowns int
+	exports   int
+	late      bool
+	stopped   bool
+}
+
+func (e *c15LogExp) Export(context.Context, []Record) error {
+	e.mu.Lock()
+	e.exports++
+	if e.stopped {
+		e.late = true
+	}
+	e.mu.Unlock()
+	return nil
+}
+func (e *c15LogExp) Shutdown(context.Context) error {
+	e.mu.Lock()
+	e.shutdowns++
+	e.mu.Unlock()
+	return nil
+}
+func (e *c15LogExp) ForceFlush(context.Context) error { return nil }
+
+// C15.logbatch: the batch processor (also around a nil exporter) shut down any
+// number of times, with live or already-cancelled contexts: the exporter is
+// shut down exactly once, nothing is exported afterwards, no panic, no hang
+func HarnessC15LogBatchShutdown() {
+	e := &c15LogExp{}
+	var exp Exporter = e
+	nilExp := vndChoice(2) == 1
+	if nilExp {
+		exp = nil
+	}
+	b := NewBatchProcessor(exp, WithMaxQueueSize(2), WithExportMaxBatchSize(1), WithExportInterval(time.Hour), WithExportTimeout(time.Hour))
+	var rec Record
+	b.OnEmit(context.Background(), &rec)
+	cancelled, cancel := context.WithCancel(context.Background())
+	cancel()
+	n := 1 + vndChoice(2)
+	inTime := false
+	for i := 0; i < n; i++ {
+		ctx := context.Background()
+		if vndChoice(2) == 1 {
+			ctx = cancelled
+		}
+		err := b.Shutdown(ctx)
+		if i == 0 && err == nil {
+			// (a Shutdown that ran out of time returns the context's error while
+			// batches already handed to the export goroutine may still be
+			// delivered: a return that does not wait cannot promise otherwise, so
+			// "nothing more is exported" is asserted for the calls that completed)
+			inTime = true
+		}
+	}
+	e.mu.Lock()
+	e.stopped = true
+	e.mu.Unlock()
+	vndReach("shut-down")
+	b.OnEmit(context.Background(), &rec)
+	b.ForceFlush(context.Background())
+	b.ForceFlush(cancelled)
+	vndYield()
+	e.mu.Lock()
+	sd, late := e.shutdowns, e.late
+	e.mu.Unlock()
+	if !nilExp {
+		vndAssert(sd == 1, "exporter-shut-down-exactly-once")
+	}
+	if inTime {
+		vndReach("shut-down-in-time")
+		vndAssert(!late, "nothing-exported-after-shutdown-returned")
+	}
 }
